@@ -1,4 +1,4 @@
-CONSTANTS PilStep = 61 Fams = {"vcni","pil","pp","flg","c16","mjd","utc","lto","h1","h2","h3","rej","bcd","rng","tag","ind","ind8"}
+CONSTANTS PilStep = 61 Step = 7 Fams = {"vcni","pil","pp","flg","c16","mjd","utc","lto","h1","h2","h3","rej","bcd","rng","tag","ind","ind8"}
 SPECIFICATION Spec
 INVARIANTS Property
 CHECK_DEADLOCK FALSE
